@@ -29,6 +29,7 @@ type c07RetryCase struct {
 	ReadTimeoutMs int64  `json:"read_timeout_ms"`
 	StallMs       int64  `json:"stall_ms"` // how long the owner stalls once; 0 = no stall (control)
 	Replicas      int    `json:"replicas"`
+	NoRetries     bool   `json:"no_retries,omitempty"` // Client.MaxRetries = -1: the stalled call must fail instead of being re-sent
 }
 
 func genC07Retry(t *rapid.T) *c07RetryCase {
@@ -39,11 +40,12 @@ func genC07Retry(t *rapid.T) *c07RetryCase {
 		Replicas:      rapid.IntRange(1, 2).Draw(t, "replicas"),
 	}
 	c.StallMs = rapid.SampledFrom([]int64{0, c.ReadTimeoutMs + 150, c.ReadTimeoutMs + 150, 2*c.ReadTimeoutMs + 150}).Draw(t, "stall")
+	c.NoRetries = rapid.IntRange(0, 2).Draw(t, "noRetries") == 0
 	return c
 }
 
 func runC07Retry(c *c07RetryCase) (v *vcommon.Violation, nontrivial, inconclusive bool) {
-	opts := vOpts{Members: 2, Replicas: c.Replicas, Partitions: 7, ClientRetries: true, ClientReadTimeoutMs: c.ReadTimeoutMs}
+	opts := vOpts{Members: 2, Replicas: c.Replicas, Partitions: 7, ClientRetries: !c.NoRetries, ClientReadTimeoutMs: c.ReadTimeoutMs}
 	cl, err := pooledCluster(opts)
 	if err != nil {
 		return nil, false, true
@@ -55,6 +57,11 @@ func runC07Retry(c *c07RetryCase) (v *vcommon.Violation, nontrivial, inconclusiv
 	key := "counter"
 	owner := cl.ownerOf(name, key)
 	bad := func(class, format string, args ...interface{}) *vcommon.Violation {
+		if c.NoRetries {
+			// re-sending was switched off (Client.MaxRetries = -1): nothing may be applied twice, and this is not
+			// the recorded finding
+			class = "applied-twice-although-retries-disabled"
+		}
 		return vcommon.NewViolation("C07", "retry", class, c, format, args...)
 	}
 	prep := &pathClient{cl: cl, dmap: name, path: pOwnerEmb}
